@@ -12,8 +12,11 @@ import (
 
 	"pgregory.net/rapid"
 
+	"verif/astx"
 	"verif/harness"
 	"verif/inputs"
+	"verif/phpgen"
+	"verif/progs"
 	"verif/px"
 )
 
@@ -169,6 +172,60 @@ func TestGenerated(t *testing.T) {
 				harness.FlushAndExit(1)
 			}
 			harness.Fail(rt, "generated", src, meta(v, cb), "%s", m)
+		}
+	})
+}
+
+// TestMutatedPrograms: generated valid programs with 1-3 token-level edits
+// (delete / duplicate / swap / move a token, or paste a token of another
+// program). The result is usually still tokenisable and often parses far into
+// the grammar, which reaches grammar actions with shapes no valid program has
+// (e.g. "...$rest = 1", "&" in odd places) — where nil slots are dereferenced.
+func TestMutatedPrograms(t *testing.T) {
+	harness.Check(t, "mutated-programs", 40000, 1500000, func(rt *rapid.T) {
+		v := rapid.SampledFrom(versions()).Draw(rt, "version")
+		cb := rapid.Bool().Draw(rt, "cb")
+		c := progs.Draw(rt, v, progs.Options(v), 1, 3)
+		c.G.Render(c.Root, progs.Policy(rt, phpgen.PolicySpace, nil))
+		toks := astx.FlatTokens(c.Root)
+		var words [][]byte
+		for _, tk := range toks {
+			if len(tk.Value) > 0 {
+				words = append(words, tk.Value)
+			}
+		}
+		if len(words) < 3 {
+			return
+		}
+		n := rapid.IntRange(1, 3).Draw(rt, "edits")
+		for e := 0; e < n && len(words) > 1; e++ {
+			i := rapid.IntRange(0, len(words)-1).Draw(rt, "at")
+			switch rapid.IntRange(0, 4).Draw(rt, "edit") {
+			case 0:
+				words = append(words[:i:i], words[i+1:]...)
+			case 1:
+				words = append(words[:i+1:i+1], words[i:]...)
+			case 2:
+				if i+1 < len(words) {
+					words[i], words[i+1] = words[i+1], words[i]
+				}
+			case 3:
+				j := rapid.IntRange(0, len(words)-1).Draw(rt, "from")
+				w := words[j]
+				words = append(words[:i:i], append([][]byte{w}, words[i:]...)...)
+			default:
+				w := []byte(rapid.SampledFrom([]string{"&", "...", "=", "(", ")", ",", "$x", "static", "function", "list", "[", "]", "::", "->", "as", "=>", "use", "yield", "?", ":", "new", "class", "{", "}", ";", "1", "abstract", "final", "const", "insteadof", "namespace", "\\"}).Draw(rt, "paste"))
+				words = append(words[:i:i], append([][]byte{w}, words[i:]...)...)
+			}
+		}
+		src := bytes.Join(words, nil)
+		harness.Class("src=mutated-program")
+		if cl, m := checkOne(src, v, cb); cl != "" {
+			if cl == "hang" {
+				harness.Report(cl, m, src, meta(v, cb))
+				harness.FlushAndExit(1)
+			}
+			harness.Fail(rt, "mutated-programs", src, meta(v, cb), "%s\nsource: %q", m, src)
 		}
 	})
 }
